@@ -200,10 +200,7 @@ func (e *c37env) check(si interface{}, hist []string) (string, string) {
 	e.checked[k] = true
 	e.r.Eval(1)
 	rt := s.rt
-	suffix := ""
-	if s.last != "" {
-		suffix = ":after-" + s.last
-	}
+	suffix := "" // the class of a violation is what is wrong with the table; the step is in the history
 	if len(rt.Buckets) == 0 {
 		return "no-buckets" + suffix, "table has no bucket"
 	}
@@ -344,6 +341,9 @@ func TestVerif_C37(t *testing.T) {
 	st := xs.Run(r, cfg)
 	r.Set("max_buckets", e.maxB)
 	r.Set("depth_reached", st.MaxDepth)
+	if r.R.NViolations > 0 {
+		return // a broken table may never reach some outcome classes; the verdict is the violation
+	}
 	r.Need(st.States >= 1000, "only %d states", st.States)
 	for _, c := range []string{"update:added", "update:moved-to-front", "update:rejected-full-bucket", "update:added-after-unfold", "update:rejected-after-unfold", "remove:present", "remove:absent", "nearest:multi"} {
 		r.NeedClass(c)
